@@ -682,7 +682,9 @@ def merge_candidate_messages():
     """messages with names that an over-eager encoder could merge: equal only under Unicode (not ASCII) case folding,
     or printing alike with different label boundaries; every ordered pair, the second one in a compressible position"""
     pool = [b"k", b"K", "\u212a".encode(), "\u00e9".encode(), "\u00c9".encode(), "m\u00dcnchen".encode(), "m\u00fcnchen".encode(),
-            "\u0130".encode(), "i\u0307".encode(), b"i", "\u00df".encode(), "\u1e9e".encode(), b"ss", b"a.b", b"a"]
+            "\u0130".encode(), "i\u0307".encode(), b"i", "\u00df".encode(), "\u1e9e".encode(), b"ss", b"a.b", b"a",
+            # octets that differ only in bit 5 (0x20) without being an ASCII letter pair
+            b"@", b"`", b"[x]", b"{x}", b"^", b"~", b"_", b"\x7f", b"1", b"\x11", "\u00c0".encode(), "\u00e0".encode()]
     tails = [[b"example", b"org"], [b"b", b"example", b"org"]]
     out = []
     for x in pool:
@@ -787,7 +789,8 @@ class C06(Prop):
         many = ["E Dns " + G.canon(many_names_msg(k)) for k in ((100, 300, 400) if tier == "quick" else (100, 257, 300, 400, 513, 1000))]
         return [("exhaustive<=3-names", ex), ("random-sequences", rnd), ("nesting-1..64", nest),
                 ("around-0x3FFF", edge), ("long-sequences", longs), ("label-boundaries", tricky),
-                ("hundreds-of-distinct-names-reused", many)]
+                ("hundreds-of-distinct-names-reused", many),
+                ("names-an-over-eager-table-could-merge", ["E Dns " + G.canon(m) for m in merge_candidate_messages()])]
 
     def oracle(self, case, line):
         return encode_oracle(case, line, expect_ok=True)
